@@ -364,7 +364,7 @@ class MirFile:
                 self.consts.append((m.start(), m.group(1), m.group(2)))
         self.simple_consts = []
         for m in re.finditer(r"^const (.+): (.+?) = const (.+);$", self.text, re.M):
-            self.simple_consts.append((m.group(1), m.group(2), m.group(3)))
+            self.simple_consts.append((m.group(1), m.group(2), m.group(3), m.start()))
 
     def find_promoted(self, fn_name, idx):
         key = f"{fn_name}::promoted[{idx}]"
@@ -393,7 +393,7 @@ class MirFile:
 
     def find_by_callee(self, callee):
         """resolve a call target written as in MIR (e.g. `zig_zag_encode`, `Murmur3PartitionerHasher::rotl64`)"""
-        callee = re.sub(r"::<.*?>", "", callee)
+        callee = strip_generics(callee)
         last2 = callee.split("::")[-2:]
         name = last2[-1]
         hits = []
@@ -418,6 +418,26 @@ class MirFile:
         if len(hits) != 1:
             raise Unsupported(f"call target {callee!r} resolves to {len(hits)} MIR functions")
         return self.find("^" + re.escape(hits[0][1]) + "$")
+
+
+def strip_generics(s):
+    """remove `::<...>` turbofish arguments (balanced)"""
+    out, i = [], 0
+    while i < len(s):
+        if s.startswith("::<", i):
+            d, j = 0, i + 2
+            while j < len(s):
+                if s[j] == "<":
+                    d += 1
+                elif s[j] == ">" and s[j - 1] not in "-=":
+                    d -= 1
+                    if d == 0:
+                        break
+                j += 1
+            i = j + 1
+        else:
+            out.append(s[i]); i += 1
+    return "".join(out)
 
 
 def impl_line_mentions(header, tyname):
@@ -535,6 +555,7 @@ class Interp:
         Paths waiting at a CFG join are merged when their live state is structurally compatible
         (Int/Bool leaves are merged with ite over the diverging path-condition suffixes)."""
         joins, live, rpo = self._analysis(fn)
+        self._cur_fn_header = "fn " + fn.header.split("fn ", 1)[-1] if fn.header.startswith("fn ") else fn.header
         p.steps = getattr(p, "steps", 0)
         p.epoch = 0
         queue = [(p, bb)]
@@ -784,7 +805,12 @@ class Interp:
                 container.f.append(None)
             container.f[proj[1]] = val
             return
-        raise Unsupported(f"store {proj} into {container}")
+        if proj[0] == "index_const" and isinstance(container, Seq):
+            if proj[1] >= len(container.items):
+                raise Panic(f"index out of bounds: {proj[1]} >= {len(container.items)}")
+            container.items[proj[1]] = val
+            return
+        raise Unsupported(f"store {proj} into {str(container)[:200]}")
 
     # ---- operands
     def operand(self, p, s):
@@ -798,6 +824,8 @@ class Interp:
             if m:
                 return self.promoted_const(p, int(m.group(1)))
             return self.constant(s[6:])
+        if re.match(r"^[\w:<>', ]+$", s) and "::" in s:
+            return Opaque("fn-item:" + s)          # function / constructor item passed as a value (e.g. to map_err)
         raise Unsupported("operand " + s)
 
     def promoted_const(self, p, idx):
@@ -854,7 +882,15 @@ class Interp:
         name, tyname = m.group(2), m.group(1)
         for mf in [self.mir] + self.mir.others:
             hits = [(pos, h, ty) for pos, h, ty in getattr(mf, "consts", []) if h.endswith("::" + name)]
-            hits += [(None, h, (ty, val)) for h, ty, val in getattr(mf, "simple_consts", []) if h.endswith("::" + name)]
+            simple = [(h, ty, val, pos) for h, ty, val, pos in getattr(mf, "simple_consts", []) if h.endswith("::" + name) or h == name]
+            if len(simple) > 1 and len({(ty, val) for _, ty, val, _ in simple}) > 1:
+                # module-level constants are printed without their path: take the definition nearest to the function being executed
+                here = mf.text.find(self._cur_fn_header) if getattr(self, "_cur_fn_header", None) else -1
+                if here >= 0:
+                    simple = [min(simple, key=lambda x: abs(x[3] - here))]
+            elif len(simple) > 1:
+                simple = simple[:1]
+            hits += [(None, h, (ty, val)) for h, ty, val, _ in simple]
             if len(hits) > 1:
                 # disambiguate by the impl block's source line: `<impl at FILE:LINE:..>` must be an impl of `tyname`
                 keep = []
@@ -892,6 +928,8 @@ class Interp:
             s = s[9:]
         if s.startswith("const ") and re.search(r"::promoted\[\d+\]$", s):
             return self.operand(p, s)
+        if s.startswith("const ") and s[6:].strip() in self.models.get("__consts__", {}):
+            return self.operand(p, s)
         if s.startswith(("copy ", "move ", "const ")) and " as " not in self._strip_parens(s):
             return self.operand(p, s)
         # cast
@@ -910,6 +948,12 @@ class Interp:
             if kind in ("Transmute",) and isinstance(v, Int) and int_type(ty) and int_type(ty)[0] == v.w:
                 return Int(v.t, v.w, int_type(ty)[1])
             if kind.startswith("PointerCoercion") or kind in ("PtrToPtr",):
+                if "Unsize" in kind and re.match(r"&(mut )?\[", ty.strip()) and isinstance(v, Ref):
+                    tgt = v.cell.v
+                    for pr in v.path:
+                        tgt = self._walk(tgt, pr)
+                    if isinstance(tgt, Tup) and tgt.name == "array":
+                        return Tup([v, self.const_int(0, "usize"), self.const_int(len(tgt.f), "usize")], "Slice")
                 return v
             raise Unsupported("cast kind " + s)
         # references
@@ -1100,6 +1144,10 @@ class Interp:
         mloc = re.match(r"_(\d+)$", lhs)
         dest_ty = fn.locals.get(int(mloc.group(1))) if mloc else None
         val = self.rvalue(fn, p, rhs, dest_ty)
+        if dest_ty and isinstance(val, Int):
+            it_ = int_type(dest_ty)
+            if it_ is not None and it_[0] != val.w:
+                val = Int(self.be.resize(val.t, val.w, it_[0], val.signed), it_[0], it_[1])
         self.write_place(p, lhs, val)
 
     @staticmethod
